@@ -293,13 +293,7 @@ def map_blocks(
     if isinstance(new_axis, Number):
         new_axis = [new_axis]
 
-    if (
-        has_keyword(func, "block_id")
-        or has_keyword(func, "block_info")
-        or sum(isinstance(a, Array) for a in args) > 1
-    ):
-        # Several array inputs are paired block by block (no alignment), so
-        # the pairing is only right on the layouts advertised now.
+    if has_keyword(func, "block_id") or has_keyword(func, "block_info"):
         # The block_id/block_info payloads built below are literals frozen to
         # the inputs' advertised chunk layout at construction time, but a
         # later simplify rewrite may put an input onto a different layout
